@@ -4,6 +4,8 @@ import MiniMcmcVerif.Props.C03Uniform
 import MiniMcmcVerif.Props.C05Invariance
 import MiniMcmcVerif.Props.C08
 import MiniMcmcVerif.Props.C09
+import MiniMcmcVerif.Props.C06Involutive
+import MiniMcmcVerif.Props.C05Stale
 
 /-!
 # C06 — long-run averages converge to the target's expectations
@@ -16,7 +18,9 @@ together:
   probability `min 1 eʳ` under a uniform draw (`MH.accept_probability`);
 * a Gibbs sweep of full-conditional updates leaves the joint invariant (`Gibbs.gibbs_sweep_invariant`);
 * the HMC proposal is `L` steps of a time-reversible integrator followed by a Metropolis test on the Hamiltonian
-  (`HMC.verlet_reversible`, `HMC.hmc_step_result`);
+  (`HMC.verlet_reversible`, `HMC.hmc_step_result`); a Metropolis step with such a deterministic involutive proposal
+  leaves every non-negative weight invariant on a finite phase space, jointly and for the position marginal
+  (`HMC.involutive_mh_invariant`, `HMC.hmc_verlet_invariant`, `HMC.hmc_position_marginal_invariant`);
 * the NUTS candidate is uniform among the admissible points of a subtree (`NUTS.selection_uniform`);
 * `run` returns the iterates after burn-in (`Run.runChain_spec`), chains use distinct streams
   (`Seeds.mh_chain_streams_distinct`).
